@@ -161,7 +161,7 @@ class StoredDataframeIterator(object):
     def copy(self):
         return StoredDataframeIterator(
             self.key,
-            item_keys=self.item_keys,
+            item_keys=list(self.item_keys),
             extension=self.extension,
             number_format=self.number_format,
             batch_number=self.batch_number,
